@@ -12,18 +12,17 @@ CFG = {
                   "<layers>/<name>, <name>.toml and the layer's SBOM files with exactly the node it had (kind, mode, content, link target; "
                   "for a file with several names: inode, mode, content - the mode belongs to the inode in the model, chmod through one name "
                   "shows under all, unlink takes one name away and nothing else: unlink_keeps_other_names); "
-                  "on success no own path remains / a fresh empty layer stands in its place. The frame theorems ask that <layers>/<name> "
-                  "itself is not a regular file with a second name (shared_top_counterexample: the code's chmod 0777 on the path it is given "
-                  "reaches the inode before read_dir fails). The model is remove_dir_recursively as "
-                  "repaired for D4 (a path that is itself a symlink is unlinked, not descended into); d4_counterexample shows the "
-                  "unrepaired recursion chmod-ing and emptying the link's target. The same executable Spec.Frame.judgeRequest judges "
+                  "on success no own path remains / a fresh empty layer stands in its place. No condition on the layer path: <layers>/<name> may be "
+                  "a directory, a symlink, a regular file with one name or with a second name outside the layer, or absent. The model is "
+                  "remove_dir_recursively as repaired for D4 and D8 (a path that is not a directory - a symlink, a regular file - is unlinked "
+                  "as such, never chmod-ed, never descended into); d4_counterexample shows the unrepaired recursion chmod-ing and emptying the "
+                  "link's target, d8_counterexample the code between the two repairs chmod-ing a top-level regular file's shared inode to 0777 "
+                  "(the outside name's mode changes), d8_repaired the repaired step leaving the other name untouched. The same executable Spec.Frame.judgeRequest judges "
                   "the before/after whole-root snapshots of the real code.",
     "level_note": "Partial for non-root: the theorems hold for both values of `root`, but the kernel's permission semantics are modelled "
                   "coarsely (owner bits; search on directories walked through, read to list, write+search on the parent to add/remove an "
                   "entry; the caller owns every node, so chmod is always allowed); ACLs, sticky bits, mount points, other owners are out. "
-                  "Hypotheses: the layers directory is a real directory; the frame needs <layers>/<name> not to be a regular file that has a "
-                  "second name (LayerNotShared - such a file is outside the property's quantifier, layer trees; what the code does to it is "
-                  "proved and was reported); completeness needs the state to be a tree (snapshots are). "
+                  "Hypotheses: the layers directory is a real directory; completeness needs the state to be a tree (snapshots are). "
                   "Trusted: Lean kernel; Spec/Frame.lean (my reading of C11: own paths, Frame, Gone, Recreated); harness and its snapshot. "
                   "Modelled not verified: std::fs / the kernel's path resolution (40 link expansions, nofollow on the last component for "
                   "lstat/unlink/rmdir/mkdir, d_type of read_dir entries), umask 022, the TOML text of the target layer's <name>.toml "
@@ -36,23 +35,25 @@ CFG = {
                   "names of a generated inode lie inside the snapshot root, one file system (tmpfs/ext4, no cross-device names).",
     "shrink": [(3, ";")],
     "rule": "directed: every top-level shape (real directory, link to an outside directory rel/abs, to a read-only / non-searchable outside "
-            "directory, to an outside file, to a sibling layer, dangling, self-loop, absent) x metadata-file state (typed, absent, empty, "
+            "directory, to an outside file, to a sibling layer, dangling, self-loop, a regular file of mode 644/444/000, a regular file that is "
+            "a second name of a read-only canary file (hard link), absent) x metadata-file state (typed, absent, empty, "
             "other metadata, not a document) and five hand-made contents (read-only nested, non-searchable nested, outside links, cycles + "
             "dangling, empty), for each of the 3 APIs as root and as uid 65534, the latter also with layers-directory modes 555/300/600/000/700; "
-            "directed hard links (first in the stream, 36 cases): for each API x user x file mode 444/400/000/644/755 a layer whose names share "
+            "directed hard links and top-level files (first in the stream, 96 cases): for each API x user x file mode 444/400/000/644/755 a layer whose names share "
             "inodes with a canary file (two inside names, one in a read-only directory), a file in a sibling layer, a root-level file, files in a "
             "read-only and in a non-searchable canary directory, with each other (inside<->inside), and files of the layer that have a second "
-            "name in the canary tree / a sibling layer (outside->inside); plus the layer's SBOM file being a second name of a read-only outside file; "
+            "name in the canary tree / a sibling layer (outside->inside); plus the layer's SBOM file being a second name of a read-only outside file; plus <layers>/<name> itself a second name of a "
+            "canary file of mode 444 / 644 or a file of its own of mode 644/444/000, each with and without <name>.toml; "
             "sampled: up to 2 000 (quick, depth <=3) / 40 000 (thorough, depth <=5) trees in total: <=28 entries, directory modes "
             "755/700/500/300/000/555/777, file modes 644/600/444/000/755, 22 link-target kinds (outside dir/file rel+abs, through a "
             "non-searchable directory, sibling layer dir/file, own layer, ., .., sibling entry, dangling rel/abs, two-link cycles, "
-            "self-loops), 8% of the entries a hard link (existing outside file beside the layers directory / in a sibling layer / a read-only one, "
-            "a fresh outside file with a random mode, another file of the layer, an outside name for a new file of the layer), 12% top-level links; 12 layer names incl. dotted and file-like ones (lyr.x, lyr.x.y, .hidden, `lyr.`, lyr.sbom, lyr.toml, "
+            "self-loops), 3% top-level regular files (a third of them a second name of an outside file), 8% of the entries a hard link (existing outside file beside the layers directory / in a sibling layer / a read-only one, "
+            "a fresh outside file with a random mode, another file of the layer, an outside name for a new file of the layer), 11% top-level links; 12 layer names incl. dotted and file-like ones (lyr.x, lyr.x.y, .hidden, `lyr.`, lyr.sbom, lyr.toml, "
             "lyr.toml.toml, lyr.sbom.cdx, a.b), each also in a directed case per API and user; in every case a canary tree and the sibling "
             "layers a confusion of names could reach - <n>x, <n>.x, <n>.sbom, <n>.toml, <n>.sbom.cdx, <n> minus its last byte, every stem of "
             "<n> (a.b.c -> a.b, a) - each with its own directory, <s>.toml and all three <s>.sbom.<fmt>.json, plus an unrelated sibling; "
             "40% as uid 65534 (a quarter of those with a restricted layers directory). "
-            "non-trivial = the layer exists, its metadata file is a document, and it holds a symlink (or is one), a hard link (a name of an inode "
+            "non-trivial = the layer exists, its metadata file is a document, and it is a regular file or holds a symlink (or is one), a hard link (a name of an inode "
             "with further names) or a directory whose owner lacks r, w or x; distinct = distinct input line",
     "trusted_base": ["Spec/Frame.lean is my reading of C11 (own paths of a layer, Frame, Gone, Recreated)",
                      "the harness snapshot (symlink_metadata walk as root: kind, mode & 07777, content, link target with the temp root stripped, "
